@@ -120,6 +120,9 @@ enum Route {
     MainLoop,
     /// `\xa\capture\m<call>` at the very end of the input (no sentinel)
     Eof,
+    /// as Capture, with `\def\b{Y}` in force and the conditional / `\noexpand` primitives installed: the call
+    /// contains expandable tokens, which must be absorbed as written
+    Expandable,
 }
 impl Route {
     fn name(self) -> &'static str {
@@ -129,10 +132,11 @@ impl Route {
             Route::Nested => "nested",
             Route::MainLoop => "main-loop",
             Route::Eof => "end-of-input",
+            Route::Expandable => "expandable-tokens",
         }
     }
     fn parse(s: &str) -> Route {
-        [Route::Capture, Route::Warmup, Route::Nested, Route::MainLoop, Route::Eof].into_iter().find(|r| r.name() == s).unwrap_or(Route::Capture)
+        [Route::Capture, Route::Warmup, Route::Nested, Route::MainLoop, Route::Eof, Route::Expandable].into_iter().find(|r| r.name() == s).unwrap_or(Route::Capture)
     }
 }
 const WARMUP: &str = "\\def\\w#1#2.{}\\w{xx}{yy}zz.";
@@ -394,6 +398,7 @@ fn run_case(d: &DefCtx, full: &[Tok], full_state: bool, route: Route) -> Option<
     let pre = match route {
         Route::Warmup => WARMUP,
         Route::Nested => NESTED_DEF,
+        Route::Expandable => "\\def\\b{Y}",
         _ => "",
     };
     let lead: &[Tok] = match route {
@@ -412,7 +417,13 @@ fn run_case(d: &DefCtx, full: &[Tok], full_state: bool, route: Route) -> Option<
         None if route == Route::Eof => return None,
         None => (format!("{pre}{}\\inject", d.head), stream.clone(), "inject"),
     };
-    let out = if full_state { run_full(&src, &injected, false) } else { run_m_macro_only(&src, &injected) };
+    let out = if full_state {
+        run_full(&src, &injected, false)
+    } else if route == Route::Expandable {
+        run_m(&src, &injected, false) // all built-ins of the minimal VM: conditionals, \\noexpand
+    } else {
+        run_m_macro_only(&src, &injected)
+    };
     Some((out, src, mode))
 }
 
@@ -871,6 +882,69 @@ fn main() {
         after_family(&mut ctx);
     }
 
+    // F1g: expandable tokens inside arguments: they must be absorbed as written (no expansion while scanning)
+    {
+        let defs = build_ctxs(defs_for_strings(false), &mut ctx);
+        let xs = [Tok::Cs("b"), Tok::Cs("iftrue"), Tok::Cs("noexpand")];
+        let alpha = [Tok::Cs("b"), Tok::Cs("iftrue"), Tok::Cs("noexpand"), LB, RB, DOT, A];
+        let maxlen = ctx.pick(4u32, 6u32);
+        let ncalls = vcore::strings_upto(7, maxlen);
+        let n = defs.len() as u64 * ncalls;
+        let dref = &defs;
+        ctx.family(
+            "expandable-tokens-in-arguments",
+            &format!("the {} definitions of calls-all-strings x every call string of length <= {maxlen} over {{\\b (a macro, \\def\\b{{Y}}), \\iftrue, \\noexpand, {{, }}, ., a}}: the captured expansion must contain the arguments exactly as written", defs.len()),
+            n,
+            |i, acc| {
+                let d = &dref[(i / ncalls) as usize];
+                let call: Vec<Tok> = vcore::nth_string(7, i % ncalls).into_iter().map(|j| alpha[j as usize]).collect();
+                let seen = std::cell::Cell::new((false, false, false));
+                check_case_route(i, d, &call, false, Route::Expandable, &|c| {
+                    let (mut bu, mut de, mut ne) = (false, false, false);
+                    let np = d.spec.params.len();
+                    for (k, a) in c.args.iter().enumerate() {
+                        if a.iter().any(|t| xs.contains(t)) {
+                            let undelimited = d.spec.params[k].is_none() && !(d.spec.hash && k + 1 == np);
+                            if undelimited && c.arg_braced[k] {
+                                bu = true;
+                            }
+                            if !undelimited {
+                                de = true;
+                            }
+                            // an expandable token below the top level of the argument
+                            let mut depth = 0;
+                            for t in a {
+                                if t.is_left_brace() {
+                                    depth += 1;
+                                } else if t.is_right_brace() {
+                                    depth -= 1;
+                                } else if depth > 0 && xs.contains(t) {
+                                    ne = true;
+                                }
+                            }
+                        }
+                    }
+                    seen.set((bu, de, ne));
+                    true
+                }, acc);
+                let (bu, de, ne) = seen.get();
+                if bu {
+                    acc.count("argument_contains_expandable_token_in_braced_undelimited_argument");
+                }
+                if de {
+                    acc.count("argument_contains_expandable_token_in_delimited_argument");
+                }
+                if ne {
+                    acc.count("argument_contains_expandable_token_in_nested_group");
+                }
+                if i % 200_003 == 31 {
+                    acc.sample(i, || json!({"definition": d.head, "call": mm::show(&call)}));
+                }
+            },
+        );
+        after_family(&mut ctx);
+    }
+
     // F1e: characters outside ASCII (2-, 3- and 4-byte) in prefix, delimiters, arguments
     {
         let (e2, e3, e4) = (Tok::Ch('\u{e9}', 12), Tok::Ch('\u{20ac}', 12), Tok::Ch('\u{1d4b3}', 12));
@@ -1170,6 +1244,9 @@ fn main() {
     ctx.require("route_matching_call_at_end_of_input", "a matching call that ends with the input");
     ctx.require("matching_call_with_non_ascii_tokens", "a matching call with 2/3/4-byte characters in delimiter or argument");
     ctx.require("truncated_programs", "programs cut off at every position");
+    ctx.require("argument_contains_expandable_token_in_braced_undelimited_argument", "a macro / conditional / \\noexpand inside an undelimited argument written as a group");
+    ctx.require("argument_contains_expandable_token_in_delimited_argument", "... inside a delimited argument");
+    ctx.require("argument_contains_expandable_token_in_nested_group", "... inside a group inside an argument");
     ctx.require("double_hash_in_replacement_text", "## in a replacement text");
     ctx.require("gdef_or_global_def", "definitions made with \\gdef / \\global\\def");
     ctx.require("via_lexer", "calls written as source text");
